@@ -28,12 +28,12 @@ MODULES = {
     "patch": ("src/libpatch/patch/mod.rs", "patch_h.rs", "verif_h"),
     "patchpriv": ("src/libpatch/patch/mod.rs", "patch_priv_h.rs", "verif_hp"),
     "parser": ("src/libpatch/patch/unified/parser.rs", "parser_h.rs", "verif_h"),
-    "writer": ("src/libpatch/patch/unified/writer.rs", "writer_h.rs", "verif_h"),
+    "rej": ("src/libpatch/patch/unified/writer.rs", "rej_h.rs", "verif_h"),
     "lines": ("src/libpatch/util/lines_with_endings.rs", "lines_h.rs", "verif_h"),
     "parallel": ("src/rapidquilt/apply/parallel.rs", "parallel_h.rs", "verif_h"),
     "common": ("src/rapidquilt/apply/common.rs", "common_h.rs", "verif_h"),
 }
-REQUIRES = {"patchpriv": ["patch"], "writer": ["parser"]}
+REQUIRES = {"patchpriv": ["patch"], "rej": ["parser", "patch"]}
 
 
 def _rewrite(path, pattern, repl, what):
